@@ -36,7 +36,7 @@ Definition run_C20 (suite : str) (args : list str) : option str :=
     Some (hex out ++ bar ++ hex (strip_raw out))
   else if streqb suite (bs "fmt.trim") then
     let t := text_of args in
-    Some (if trim_stable trim_names t then hex (trim_fmt trim_names t) else lbl_unstable)
+    Some (if trim_stable t then hex (trim_fmt trim_names t) else lbl_unstable)
   else if streqb suite (bs "fmt.strip") then
     Some (hex (strip_raw (nth 0 args [])))
   else if streqb suite (bs "fmt.tables") then
